@@ -54,6 +54,10 @@ def norm(text):
 def calls(tree, names, acc):
     if tree[0] == "sym" and tree[1] in names:
         acc.add(tree[1])
+    elif tree[0] == "list" and tree[1] and tree[1][0] == ("sym", "assign-inline"):
+        # bindings of an assign-inline are substituted at their uses: an unused one vanishes,
+        # so only the body is certainly part of the emitted program
+        calls(tree[1][-1], names, acc)
     elif tree[0] == "list":
         for x in tree[1]:
             calls(x, names, acc)
